@@ -57,12 +57,14 @@ def main():
         mrows.append("| %s | %s |" % (os.path.basename(f)[:-5], a["by"].replace("CAUGHT by ", "").replace("'", "") if a else "-"))
     out = [BEGIN, "",
            "%d independently written changes are kept under `seeded/` (rounds 1-7: two per property and round; round 8: two for each "
-           "of eight properties; each confirmed: demo passes on the clean tree, the patch applies, the repository's 192 tests still "
+           "of eight properties; round 9: one for each of ten properties; each confirmed: demo passes on the clean tree, the patch applies, the repository's 192 tests still "
            "pass, the demo fails). With the current quick tiers: %d are caught by the check of the property they were written "
            "against, %d only by the check of another property that owns the broken statement (conventions of custom shell classes "
            "-> C09, stale state after parameter updates and aliasing of results -> C19, accuracy of the repulsion integrals -> C04, "
-           "definitions for indefinite density matrices -> C06, the force/stress relation -> C15), %d is not reported by any check: "
-           "C07-13, whose deviation stays eighteen orders below the yardstick C07 is checked with (see its `meta.json`)." % (n, own, other, missed), "",
+           "definitions for indefinite density matrices -> C06, the force/stress relation -> C15), %d are not reported by any check "
+           "(the rows whose *caught by* column is empty): C07-13, whose deviation stays eighteen orders below the yardstick C07 is "
+           "checked with, C04-15, which stays below C04's bound inside the exponent range C04 names, and any change of round 9 "
+           "whose `meta.json` says so (`strengthening_history`)." % (n, own, other, missed), "",
            "Columns: *caught by* = tiers that reported a VIOLATION when the change was ingested (after strengthening, where the "
            "column *strengthened* says yes - the history is in the change's `meta.json`); *re-audit* = checks of the quick tier "
            "that report it in the last uniform re-audit with the final checks (`tools/audit_all.py`, `seeded/AUDIT.json`; `-` = "
